@@ -1783,8 +1783,14 @@ func isValidLiteralValue(ttype Input, valueAST ast.Value) (bool, []string) {
 				messagesReduce = append(messagesReduce, fmt.Sprintf(`In field "%v": Unknown field.`, fieldAST.Name.Value))
 			}
 		}
-		// Ensure every defined field is valid.
-		for fieldName, field := range fields {
+		// Ensure every defined field is valid (in a stable order).
+		fieldNames := make([]string, 0, len(fields))
+		for fieldName := range fields {
+			fieldNames = append(fieldNames, fieldName)
+		}
+		sort.Strings(fieldNames)
+		for _, fieldName := range fieldNames {
+			field := fields[fieldName]
 			var fieldASTValue ast.Value
 			if fieldAST := fieldASTMap[fieldName]; fieldAST != nil {
 				fieldASTValue = fieldAST.Value
